@@ -69,7 +69,8 @@ class OutstandingRequest {
                      google::protobuf::Message *response)
       : id(id),
         controller(new RpcController(session)),
-        response(response) {
+        response(response),
+        cancelled(false) {
   }
   ~OutstandingRequest() {
     if (controller) {
@@ -83,6 +84,10 @@ class OutstandingRequest {
   int id;
   RpcController *controller;
   google::protobuf::Message *response;
+  // true if another request with the same id has replaced this one. The
+  // service still holds the completion callback, so the request lives until
+  // the service completes it.
+  bool cancelled;
 };
 
 
@@ -269,6 +274,13 @@ void RpcChannel::CallMethod(const MethodDescriptor *method,
 void RpcChannel::RequestComplete(OutstandingRequest *request) {
   string output;
   RpcMessage message;
+
+  if (request->cancelled) {
+    // The client has already been told this request failed, and it's no
+    // longer in m_requests.
+    delete request;
+    return;
+  }
 
   if (request->controller->Failed()) {
     SendRequestFailed(request);
@@ -490,7 +502,13 @@ void RpcChannel::HandleRequest(RpcMessage *msg) {
 
   if (m_requests.find(msg->id()) != m_requests.end()) {
     OLA_WARN << "dup sequence number for request " << msg->id();
-    SendRequestFailed(m_requests[msg->id()]);
+    // The service may still be working on the old request and will run its
+    // completion callback later, so it can't be deleted here. Take it out of
+    // m_requests, tell the client it failed and free it in RequestComplete().
+    OutstandingRequest *old_request = m_requests[msg->id()];
+    m_requests.erase(msg->id());
+    old_request->cancelled = true;
+    SendRequestFailed(old_request);
   }
 
   m_requests[msg->id()] = request;
